@@ -178,6 +178,11 @@ class ExprCanon(ast.NodeTransformer):
 
     def visit_BinOp(self, node):
         self.generic_visit(node)
+        # len(x) + 0 -> len(x)  (an int plus the literal zero)
+        if isinstance(node.op, (ast.Add, ast.Sub)) and isinstance(node.right, ast.Constant) and isinstance(node.right.value, int) and not isinstance(node.right.value, bool) and node.right.value == 0 and _certainly_int(node.left):
+            return node.left
+        if isinstance(node.op, ast.Add) and isinstance(node.left, ast.Constant) and isinstance(node.left.value, int) and not isinstance(node.left.value, bool) and node.left.value == 0 and _certainly_int(node.right):
+            return node.right
         # adjacent string pieces joined with +  ->  one (f-)string
         if isinstance(node.op, ast.Add):
             def pieces(e):
@@ -349,6 +354,15 @@ class ExprCanon(ast.NodeTransformer):
     def visit_Call(self, node):
         self.generic_visit(node)
         f0 = node.func
+        # f(a, *(b, c)) -> f(a, b, c)
+        if any(isinstance(x, ast.Starred) and isinstance(x.value, (ast.Tuple, ast.List)) and not any(isinstance(y, ast.Starred) for y in x.value.elts) for x in node.args):
+            flat_args = []
+            for x in node.args:
+                if isinstance(x, ast.Starred) and isinstance(x.value, (ast.Tuple, ast.List)) and not any(isinstance(y, ast.Starred) for y in x.value.elts):
+                    flat_args.extend(x.value.elts)
+                else:
+                    flat_args.append(x)
+            node.args = flat_args
         # map(f, X) -> (f(_m) for _m in X)   (one iterable, f a plain name / attribute)
         if isinstance(f0, ast.Name) and f0.id == "map" and len(node.args) == 2 and not node.keywords and isinstance(node.args[0], (ast.Name, ast.Attribute)):
             var = "_m"
@@ -730,9 +744,22 @@ def _unroll_one(s, rest):
         return None
     if any(isinstance(n, (ast.FunctionDef, ast.AsyncFunctionDef, ast.Lambda, ast.ClassDef)) for n in inside):
         return None
-    # the loop variables are dead afterwards
-    if any(isinstance(n, ast.Name) and n.id in names for st in list(rest) + list(s.orelse) for n in ast.walk(st)):
+    # the loop variables are dead afterwards (a later loop that binds them again ends the scan)
+    if any(isinstance(n, ast.Name) and n.id in names for st in s.orelse for n in ast.walk(st)):
         return None
+    live = set(names)
+    for st in rest:
+        if not live:
+            break
+        if isinstance(st, ast.For):
+            rebound = {n.id for n in ast.walk(st.target) if isinstance(n, ast.Name)} & live
+            if rebound and not any(isinstance(n, ast.Name) and n.id in live for n in ast.walk(st.iter)):
+                if any(isinstance(n, ast.Name) and n.id in (live - rebound) for n in ast.walk(st)):
+                    return None
+                live -= rebound
+                continue
+        if any(isinstance(n, ast.Name) and n.id in live for n in ast.walk(st)):
+            return None
     # names occurring in the rows must not be rebound by the body (a later row would see the new value either way,
     # but the substituted test of an earlier copy must not)
     row_names = {n.id for r in rows for e in r for n in ast.walk(e) if isinstance(n, ast.Name)}
@@ -1252,6 +1279,7 @@ def _scalarise_local_tuples(fnode):
         arity = None
         ok = True
         stores = []
+        unpacks = []
         for n in nodes:
             par = pm.get(id(n))
             if isinstance(n.ctx, ast.Store):
@@ -1264,20 +1292,34 @@ def _scalarise_local_tuples(fnode):
                 else:
                     ok = False
             elif isinstance(n.ctx, ast.Load):
-                if not (isinstance(par, ast.Subscript) and par.value is n and isinstance(par.ctx, ast.Load) and isinstance(par.slice, ast.Constant) and isinstance(par.slice.value, int) and not isinstance(par.slice.value, bool)):
+                if isinstance(par, ast.Assign) and par.value is n and len(par.targets) == 1 and isinstance(par.targets[0], ast.Tuple) and all(isinstance(e, ast.Name) and e.id != name for e in par.targets[0].elts):
+                    unpacks.append((n, par))
+                elif not (isinstance(par, ast.Subscript) and par.value is n and isinstance(par.ctx, ast.Load) and isinstance(par.slice, ast.Constant) and isinstance(par.slice.value, int) and not isinstance(par.slice.value, bool)):
                     ok = False
             else:
                 ok = False
         if not ok or not stores or arity is None or arity < 1:
             continue
-        if any(not (0 <= pm[id(n)].slice.value < arity) for n in nodes if isinstance(n.ctx, ast.Load)):
+        if any(len(u.targets[0].elts) != arity for _, u in unpacks):
+            continue
+        unpacked = {id(n) for n, _ in unpacks}
+        if any(not (0 <= pm[id(n)].slice.value < arity) for n in nodes if isinstance(n.ctx, ast.Load) and id(n) not in unpacked):
             continue
         new_names = [f"{name}__{i}" for i in range(arity)]
         if set(new_names) & existing:
             continue
+        # `a, b = t`  ->  `a = t__0; b = t__1`  (the targets are plain names other than t)
+        for n, u in unpacks:
+            gp = pm.get(id(u))
+            seq = [_loc(ast.Assign(targets=[e], value=_loc(ast.Name(id=nn, ctx=ast.Load()), u)), u) for nn, e in zip(new_names, u.targets[0].elts)]
+            for f_ in ("body", "orelse", "finalbody"):
+                lst = getattr(gp, f_, None)
+                if isinstance(lst, list) and any(x is u for x in lst):
+                    i = next(k for k, x in enumerate(lst) if x is u)
+                    lst[i:i + 1] = seq
         # loads
         for n in nodes:
-            if isinstance(n.ctx, ast.Load):
+            if isinstance(n.ctx, ast.Load) and id(n) not in unpacked:
                 sub = pm[id(n)]
                 repl = _loc(ast.Name(id=new_names[sub.slice.value], ctx=ast.Load()), sub)
                 gp = pm.get(id(sub))
@@ -1799,5 +1841,8 @@ def _canonicalise_once(tree):
     tree = ExprCanon().visit(tree)
     tree = _Tests().visit(tree)
     tree.body = [canon_stmt(s) for s in tree.body]
+    # module level: only the loops over literal tables are normalised (registrations)
+    if any(isinstance(s, ast.For) for s in tree.body):
+        tree.body = _unroll_literal_loops(tree.body)
     ast.fix_missing_locations(tree)
     return tree
